@@ -2,6 +2,7 @@ import Yaep.Generated
 import Yaep.Model.Api
 import Yaep.Model.ReadGrammar
 import Yaep.Model.GotoCache
+import Yaep.Model.Descr
 /-!
 # The constants the model uses are the ones the sources define now
 
@@ -40,5 +41,85 @@ theorem generated_cache_size : Generated.maxCachedGotoResults = (MAX_CACHED_GOTO
 
 /-- the message buffer the judge checks messages against (C12) -/
 theorem generated_message_length : Generated.maxErrorMessageLength = 200 := by decide
+
+/-! ## error sites of `yaep_read_grammar` / `check_grammar` -/
+
+/-- number of an error macro in `yaep.h` as extracted -/
+def codeOfMacro (name : String) : Nat := ((Generated.errorCodes.find? (·.1 == name)).map (·.2)).getD 0
+
+/-- the `throw` sites of `Model/ReadGrammar.lean` (`readTerms`, the `error` name, `readRules`,
+the missing-rules test) in the order of its text; the C code has two sites (left-hand side,
+right-hand side) where the model tests the reserved names in one condition -/
+def modelReadGrammarSites : List Nat := [6, 5, 7, 4, 4, 4, 9, 10, 11, 4, 4, 12, 13, 8]
+
+/-- `checkGrammar`: strict (not productive, not reachable), non-strict (start symbol not
+productive), loop -/
+def modelCheckGrammarSites : List Nat := [15, 14, 15, 16]
+
+/-- the checks of `yaep_read_grammar` stand in the source in the order the model performs them:
+a check that is added, removed or moved breaks this obligation -/
+theorem generated_readGrammar_sites :
+    Generated.readGrammarErrorSites.map codeOfMacro = modelReadGrammarSites := by decide
+
+theorem generated_checkGrammar_sites :
+    Generated.checkGrammarErrorSites.map codeOfMacro = modelCheckGrammarSites := by decide
+
+/-! ## the description scanner -/
+
+/-- what the scanner model makes of the one-byte text `c` -/
+def lexByte (c : Nat) : Option (List DTok) := lexDescr 4 [UInt8.ofNat c] []
+
+/-- the characters `yylex` returns as themselves (`case` labels before `return c;`) are exactly
+the bytes the scanner model turns into a `sym` token — over all 256 byte values -/
+theorem generated_lex_selfChars :
+    (List.range 256).all (fun c =>
+      (lexByte c == some [DTok.sym (Char.ofNat c), DTok.eof]) == Generated.lexSelfChars.contains c) = true := by decide +kernel
+
+/-- white space of `yylex` (`case` labels before the first `break;`) = the bytes the model skips -/
+theorem generated_lex_whiteSpace :
+    (List.range 256).all (fun c =>
+      (c != 0 && lexByte c == some [DTok.eof]) == Generated.lexWhiteSpace.contains c) = true := by decide +kernel
+
+/-- identifiers start with a letter or the extracted extra character, and continue with letters,
+digits or the extracted extra character -/
+theorem generated_lex_ident :
+    (List.range 256).all (fun c =>
+      (match lexByte c with | some [DTok.ident _, DTok.eof] => true | _ => false) ==
+        (isAlpha (UInt8.ofNat c) || c == Generated.lexIdentExtraStart)) = true ∧
+    (List.range 256).all (fun c =>
+      (match lexDescr 4 [97, UInt8.ofNat c] [] with | some [DTok.ident _, DTok.eof] => true | _ => false) ==
+        (isAlpha (UInt8.ofNat c) || isDigit (UInt8.ofNat c) || c == Generated.lexIdentExtraCont || c == 0
+          || Generated.lexWhiteSpace.contains c)) = true := by decide +kernel
+
+theorem generated_lex_keyword :
+    Generated.lexKeywords = ["TERM"] ∧ lexDescr 8 [84, 69, 82, 77] [] = some [DTok.term, DTok.eof] := by decide +kernel
+
+/-- six diagnostics, all of them description syntax errors for the model (`lexDescr = none`) -/
+theorem generated_lex_messages : Generated.lexMessages.length = 6 := by decide
+
+/-! ## semantic actions of `sgramm.y` -/
+
+/-- a terminal declared without `= NUMBER` gets the extracted "no code" value; the scanner
+model's CHAR token takes the character at the extracted index of its representation -/
+theorem generated_sgramm_term_actions :
+    (parseTermDecls 3 [DTok.ident "a", DTok.eof] {}).map (fun p => (p.1, p.2.sterms.map (fun t => (t.name, t.code)), p.2.srules.length)) =
+      some ([DTok.eof], [("a", Generated.sgrammNoCode)], 0) ∧
+    Generated.sgrammCharIndex = 1 ∧ charName 120 = "'x'" ∧ charCode 120 = 120 := by decide +kernel
+
+/-- default cost of an abstract node, cost of a rule without abstract node, the two places that
+produce the NIL translation number -/
+theorem generated_sgramm_trans_actions :
+    parseTrans 3 [DTok.sym '#', DTok.ident "n", DTok.eof] =
+      some ([DTok.eof], some "n", Generated.sgrammDefaultCost, []) ∧
+    parseTrans 3 [DTok.sym '#', DTok.num 0, DTok.eof] = some ([DTok.eof], none, Generated.sgrammNoAnodeCost, [0]) ∧
+    Generated.sgrammNilUses = 2 ∧
+    parseTrans 3 [DTok.sym '#', DTok.sym '-', DTok.eof] = some ([DTok.eof], none, 0, [NIL_TRANSL]) ∧
+    parseNumbers 3 [DTok.sym '-', DTok.eof] [] = ([DTok.eof], [NIL_TRANSL]) := by
+  refine ⟨?_, ?_, ?_, ?_, ?_⟩ <;> decide +kernel
+
+/-- implicit terminal codes start at the extracted value -/
+theorem generated_sgramm_first_code :
+    assignCodes [⟨"a", -1⟩] [⟨"a", -1⟩] Generated.sgrammFirstImplicitCode.toNat = [("a", 256)] ∧
+    Generated.sgrammFirstImplicitCode = 256 := by decide
 
 end Yaep
